@@ -57,6 +57,42 @@ pub unsafe fn fill_random(buf: *mut u8, len: usize) {
 }
 
 // ---------------------------------------------------------------------------------------
+// Clock seam: the body of the process-wide `clock_gettime` for client threads. grex reads no clock today; the
+// seam exists so that a change which introduces one (a time budget, a deadline) meets a clock the simulator owns:
+// on a quarter of the client threads time jumps forward by seconds to hours between two readings.
+// ---------------------------------------------------------------------------------------
+
+thread_local! {
+    /// (enabled, prng state, accumulated offset in ns)
+    static SIM_CLOCK: Cell<(bool, u64, i64)> = const { Cell::new((false, 0, 0)) };
+}
+pub static CLOCK_READS_SIMULATED: AtomicU64 = AtomicU64::new(0);
+pub static CLOCK_JUMPS: AtomicU64 = AtomicU64::new(0);
+
+pub fn enable_jumpy_clock(seed: u64) {
+    SIM_CLOCK.with(|c| c.set((true, seed | 1, 0)));
+}
+
+/// Returns the offset (ns) to add to the real reading on this thread, advancing the simulated skew; None when
+/// the thread reads the real clock.
+pub fn sim_clock_offset() -> Option<i64> {
+    let (on, mut st, mut off) = SIM_CLOCK.with(|c| c.get());
+    if !on {
+        return None;
+    }
+    CLOCK_READS_SIMULATED.fetch_add(1, Ordering::Relaxed);
+    let r = splitmix64(&mut st);
+    // one reading in 8 sees a jump: 2 s, 10 s, 1 min or 1 h (never backwards: the clock stays monotonic)
+    if r % 8 == 0 {
+        let jump_s: i64 = [2, 10, 60, 3600][((r >> 8) % 4) as usize];
+        off += jump_s * 1_000_000_000;
+        CLOCK_JUMPS.fetch_add(1, Ordering::Relaxed);
+    }
+    SIM_CLOCK.with(|c| c.set((true, st, off)));
+    Some(off)
+}
+
+// ---------------------------------------------------------------------------------------
 // In-build hook
 // ---------------------------------------------------------------------------------------
 
@@ -165,6 +201,9 @@ impl Event {
 
 fn client_main(id: usize, hash_seed: u64, ops: Vec<Op>, shared: Arc<Shared>) {
     set_hash_stream(hash_seed);
+    if hash_seed % 4 == 0 {
+        enable_jumpy_clock(hash_seed ^ 0xC10C_C10C);
+    }
     CLIENT.with(|c| *c.borrow_mut() = Some((id, shared.clone())));
     shared.sched.wait_first_turn(id);
     let mut slots: Vec<Option<RegExpBuilder>> = vec![];
